@@ -359,7 +359,9 @@ def _state_defs(ctx, is_async):
     ctx.make_handler = make_handler
     for s, d in zip(case['states'], out):
         if s['given']:
-            d['on_timeout'] = [make_handler(cb) for cb in s['on_timeout']]
+            hs = [make_handler(cb) for cb in s['on_timeout']]
+            # 'bare': the single handler is passed as it is (a string or a callable), not inside a list
+            d['on_timeout'] = hs[0] if s.get('bare') and len(hs) == 1 else hs
     return out
 
 
@@ -433,10 +435,18 @@ def _build(ctx, base, feature, S):
         @S.add_state_features(marked_feature(ctx, feature, is_async))
         class M(base):
             pass
-        machine = M(model=ctx.models, states=_state_defs(ctx, is_async),
+        defs = _state_defs(ctx, is_async)
+        group = case.get('group') or []
+        machine = M(model=ctx.models, states=[d for d, st in zip(defs, case['states']) if st['id'] not in group],
                     initial='s%d' % case['init'], auto_transitions=False, send_event=True,
                     ignore_invalid_triggers=case['ignore'], queued=case['queued'],
                     on_exception=_on_exception(ctx))
+        if group:
+            # several states created by ONE add_states call from shared keyword arguments (one timeout, ONE
+            # on_timeout / on_enter / on_exit list object handed over): each state must own its lists
+            common = dict([d for d, st in zip(defs, case['states']) if st['id'] == group[0]][0])
+            common.pop('name')
+            machine.add_states(['s%d' % g for g in group], **common)
         for e, s, d, ok in case['trans']:
             kw = {}
             if not ok:
@@ -589,7 +599,10 @@ RULE = ('cases = @add_state_features(Timeout) on Machine / HierarchicalMachine (
         'state.add_callback) right after an event and at random places, half of the given timeout states then being '
         'created with on_timeout=[] (entered with nothing to call, handlers registered during the visit; also handlers '
         'removed during the visit); half of the on_timeout handlers are given as STRINGS naming a method that every '
-        'model has (the method reports the model it belongs to: each expiry must run the handlers of the model that timed '
+        'model has; a single handler is passed bare (string or callable, not in a list) in half of the cases, also on states '
+        'created with timeout 0 that get a positive timeout later; 30% of the cases with >= 3 states create two states by ONE '
+        'add_states call from shared keyword arguments and then change the on_timeout list of one of them in place '
+        '(the method reports the model it belongs to: each expiry must run the handlers of the model that timed '
         'out); the expiry marker TFired is logged by a subclass of the feature whose '
         '_process_timeout logs and delegates, so the on_timeout lists hold exactly the case\'s handlers, possibly none; re-trigger chains that '
         'do not die out (state-only pre-simulation, then the model\'s fuel) lose their triggers; every 11th case has a '
@@ -751,6 +764,23 @@ def gen(rng, i, tier):
     for lst in [s['on_timeout'] for s in states] + [op[2] for op in hist if op[0] == 3]:
         for cb in lst:
             cb['named'] = rng.random() < 0.5      # given as the name of a model method instead of a callable
+    group = []
+    others = [s for s in states if s['id'] != init]
+    if len(others) >= 2 and not malformed and rng.random() < 0.3:
+        # two states created by one add_states call: same timeout, same handler / callback lists handed over once;
+        # afterwards the list of ONE of them is changed in place, while a model may be waiting in the other
+        a, b = rng.sample(others, 2)
+        for k in ('timeout', 'given', 'on_timeout', 'enter', 'exit'):
+            b[k] = copy.deepcopy(a[k])
+        group = [a['id'], b['id']]
+        if a['timeout']:
+            evs = [i for i, op in enumerate(hist) if op[0] == 0] or [0]
+            extra = [dict(id=900 + j, act=None, raises=False, kind=KIND_EXCEPTION, named=rng.random() < 0.5)
+                     for j in range(rng.choice([0, 1, 2]))]
+            hist.insert(rng.choice(evs) + 1, [3, rng.choice(group), extra, 1])
+    for s in states:
+        # a single handler passed bare (not in a list), also on states whose timeout is 0 at creation
+        s['bare'] = s['given'] and len(s['on_timeout']) == 1 and rng.random() < 0.5
     if rng.random() < 0.5:
         # re-enter and leave again at the same instant: a pair of events of one model with nothing in between
         k = rng.randrange(len(hist) + 1)
@@ -758,7 +788,7 @@ def gen(rng, i, tier):
         hist[k:k] = [[0, m, rng.randrange(ne)], [0, m, rng.randrange(ne)]]
     if is_async:
         hist = _settle_before_reassign(hist)
-    return dict(variant='async' if is_async else 'thread', cls=cls, queued=queued, states=states,
+    return dict(variant='async' if is_async else 'thread', cls=cls, queued=queued, states=states, group=group,
                 trans=trans, ignore=rng.random() < 0.3, onexc=[100 + j for j in range(rng.choice([0, 0, 1, 2]))],
                 nmodels=nm, init=init, history=hist)
 
